@@ -26,7 +26,8 @@ package main
 //                 ok-noexist (cbMetadata.Load: "no checkpoint" after KEY_ENOENT / corrupt) |
 //                 server-error | unhealthy (Ping) | timeout | canceled | conn-error |
 //                 other-error | panic:<class> (cbMembership's recoverable fail-stop) |
-//                 hang (GetXattrs.bg only: the call had not returned after 5 s + 2 s + 0.5 s)
+//                 hang (the call had not returned 5 s after its deadline – GetXattrs.bg: after 5 s + 2 s + 0.5 s –
+//                 and is left behind)
 // time-class      before (< D) | ontime (D .. D + 1 s; bg5: D + 2 s) | late
 // leak            goroutines parked in go-dcp's couchbase package because of this case
 //                 after the settling time (late reply delivered, 60 ms quiet)
@@ -40,17 +41,36 @@ package main
 // (`swallows`, the unchanged tree, F7)?  Its answer travels on the op lines of the
 // GetVBucketSeqNos error cases so that the (stateless) Lean handler can tell the
 // unfixed from the fixed code; both correspond.
+//
+// GetVBucketSeqNos on a cluster of SEVERAL KV nodes (one GET_ALL_VB_SEQNOS request per node, each with its own
+// 60 s context + asyncOp inside the wrapper):
+//
+//   w-seqnos-multi <n> <b0>,<b1>[,<b2>…]   =>   <result-class> <time-class> blocked=<k>
+//
+// n               number of KV nodes of the simulated cluster (vBucket vb is active on node vb mod n)
+// bi              what node i does with its request: prompt | err (INTERNAL_ERROR status) | silent |
+//                 late (answers 1 s AFTER the 60 s deadline)
+// result-class    ok (success and the map holds the union of all nodes' vBuckets) | ok-empty | ok-wrong-data |
+//                 server-error | timeout | … (awClass) | hang (not back 10 s after the deadline; left behind)
+// time-class      before (< 60 s) | by-deadline (60 s … 63 s) | late
+// blocked         goroutines of THIS call (pprof label of the case, inherited by every goroutine of its client)
+//                 that still have a GetVBucketSeqNos frame 2 s after the call returned (and 1 s after a late
+//                 answer was sent); for `hang`: at the moment the harness gave up
+// These cases start first and run concurrently with everything else (their wall time is the 60 s of the wrapper).
 
 import (
+	"bytes"
 	"context"
 	"errors"
 	"fmt"
 	"os"
 	"regexp"
 	"runtime"
+	"runtime/pprof"
 	"sort"
 	"strings"
 	"sync"
+	"sync/atomic"
 	"time"
 
 	"github.com/Trendyol/go-dcp/config"
@@ -76,6 +96,8 @@ const (
 	awBgD      = 5 * time.Second
 	awBgMargin = 2 * time.Second
 	awBgGiveUp = awBgD + awBgMargin + 500*time.Millisecond
+	// any call that is not back this long after its deadline is reported as `hang` and left behind
+	awCallGiveUp = 5 * time.Second
 )
 
 // ---------------------------------------------------------------- environment
@@ -212,6 +234,11 @@ func awPanicClass(r any) string {
 
 var awFrameRe = map[string]*regexp.Regexp{}
 
+var (
+	awGoidRe      = regexp.MustCompile(`^goroutine (\d+) \[`)
+	awCreatedInRe = regexp.MustCompile(`created by [^\n]* in goroutine (\d+)\n`)
+)
+
 // goroutines whose stack contains a frame of one of the given go-dcp functions
 func awParked(filter *regexp.Regexp) int {
 	buf := make([]byte, 1<<20)
@@ -224,9 +251,28 @@ func awParked(filter *regexp.Regexp) int {
 		buf = make([]byte, 2*len(buf))
 	}
 	cnt := 0
-	for _, g := range strings.Split(string(buf), "\n\n") {
+	gs := strings.Split(string(buf), "\n\n")
+	// the concurrent `w-seqnos-multi` cases are not this case's goroutines: their calling goroutines
+	// (frames main.awMulti…) and the errgroup workers created by those
+	multi := map[string]bool{}
+	for _, g := range gs {
+		if strings.Contains(g, "main.awMulti") {
+			if m := awGoidRe.FindStringSubmatch(g); m != nil {
+				multi[m[1]] = true
+			}
+		}
+	}
+	for _, g := range gs {
 		if strings.Contains(g, "awParked") {
 			continue // the caller itself
+		}
+		if len(multi) > 0 {
+			if strings.Contains(g, "main.awMulti") {
+				continue
+			}
+			if m := awCreatedInRe.FindStringSubmatch(g); m != nil && multi[m[1]] {
+				continue
+			}
 		}
 		if filter.MatchString(g) {
 			cnt++
@@ -574,14 +620,22 @@ func awRunOnce(e *awEnv, w *awWrapper, beh string, k int, f7 string) awResult {
 	e.mu.Unlock()
 	t0 := time.Now()
 	var class string
-	func() {
+	// the call runs on a goroutine of its own: a wrapper that never comes back (e.g. blocked inside its own
+	// callback during op.Cancel()) is an observation (`hang`), not the end of the stream
+	callDone := make(chan string, 1)
+	go func() {
 		defer func() {
 			if r := recover(); r != nil {
-				class = awPanicClass(r)
+				callDone <- awPanicClass(r)
 			}
 		}()
-		class = w.call(e, k)
+		callDone <- w.call(e, k)
 	}()
+	select {
+	case class = <-callDone:
+	case <-time.After(awDeadline(w.dclass) + awCallGiveUp):
+		class = "hang"
+	}
 	ret := time.Now()
 	el := ret.Sub(t0)
 	e.mu.Lock()
@@ -641,6 +695,234 @@ func awF7Probe(e *awEnv) string {
 	return "swallows"
 }
 
+// ---------------------------------------------------------------- GetVBucketSeqNos on several KV nodes
+
+const (
+	awMultiD      = time.Minute      // client.go GetVBucketSeqNos: context.WithTimeout(…, time.Second*60) per request
+	awMultiMargin = 3 * time.Second  // `by-deadline` = D … D + margin
+	awMultiGiveUp = 10 * time.Second // not back D + this long after the start: `hang`
+	awMultiLate   = time.Second      // a `late` node answers D + this long after it got the request
+	awMultiSettle = 2 * time.Second  // no goroutine of the call may be left this long after it returned
+	awMultiVbN    = 8
+)
+
+type awMultiCase struct{ behs []string }
+
+func (m awMultiCase) op() string {
+	return fmt.Sprintf("w-seqnos-multi %d %s", len(m.behs), strings.Join(m.behs, ","))
+}
+
+func awMultiParse(op string) (awMultiCase, bool) {
+	t := strings.Fields(op)
+	if len(t) != 3 || t[0] != "w-seqnos-multi" {
+		return awMultiCase{}, false
+	}
+	behs := strings.Split(t[2], ",")
+	if fmt.Sprint(len(behs)) != t[1] || len(behs) < 1 || len(behs) > 8 {
+		return awMultiCase{}, false
+	}
+	for _, b := range behs {
+		switch b {
+		case "prompt", "err", "silent", "late":
+		default:
+			return awMultiCase{}, false
+		}
+	}
+	return awMultiCase{behs}, true
+}
+
+// the cases of one run: on a 2- and a 3-node cluster – all prompt; one node answers with an error status;
+// one node silent; all silent; one node late.  Quick: the odd node is drawn; thorough: every position.
+func awMultiCases(c *Ctx) []awMultiCase {
+	var out []awMultiCase
+	fill := func(n int, b string) []string {
+		x := make([]string, n)
+		for i := range x {
+			x[i] = b
+		}
+		return x
+	}
+	for _, n := range []int{2, 3} {
+		out = append(out, awMultiCase{fill(n, "prompt")}, awMultiCase{fill(n, "silent")})
+		for _, odd := range []string{"err", "silent", "late"} {
+			var pos []int
+			if c.Thorough() {
+				for i := 0; i < n; i++ {
+					pos = append(pos, i)
+				}
+			} else {
+				pos = []int{c.R.Intn(n)}
+			}
+			for _, i := range pos {
+				b := fill(n, "prompt")
+				b[i] = odd
+				out = append(out, awMultiCase{b})
+			}
+		}
+	}
+	return out
+}
+
+// goroutines carrying the pprof label awmulti=<id> (the case's own goroutine, its client's and gocbcore's
+// goroutines, the errgroup workers of the call: labels are inherited on `go`) with a GetVBucketSeqNos frame
+func awMultiParked(id string) int {
+	var b bytes.Buffer
+	if err := pprof.Lookup("goroutine").WriteTo(&b, 1); err != nil {
+		return -1
+	}
+	want := fmt.Sprintf("%q:%q", "awmulti", id)
+	cnt := 0
+	for _, rec := range strings.Split(b.String(), "\n\n") {
+		if !strings.Contains(rec, want) || !strings.Contains(rec, "couchbase.(*client).GetVBucketSeqNos") {
+			continue
+		}
+		k := 1
+		fmt.Sscanf(rec, "%d @", &k)
+		cnt += k
+		if os.Getenv("VERIF_DEBUG") != "" {
+			fmt.Fprintf(os.Stderr, "[c20w] multi %s parked:\n%s\n", id, rec)
+		}
+	}
+	return cnt
+}
+
+// awMultiRun runs one case on a cluster + client of its own.  started is called once the call is under way
+// (or the case is over).
+func awMultiRun(m awMultiCase, idx int, started func()) awResult {
+	var res awResult
+	done := make(chan struct{})
+	id := fmt.Sprintf("m%d", idx)
+	go pprof.Do(context.Background(), pprof.Labels("awmulti", id), func(context.Context) {
+		defer close(done)
+		res = awMultiRunLabelled(m, id, started)
+	})
+	<-done
+	return res
+}
+
+func awMultiRunLabelled(m awMultiCase, id string, started func()) awResult {
+	var once sync.Once
+	defer once.Do(started)
+	n := len(m.behs)
+	node := sim.New(sim.Options{NumVb: awMultiVbN, KVNodes: n})
+	for vb := 0; vb < awMultiVbN; vb++ {
+		node.SetReplicaMap(uint16(vb), []int{vb % n})
+		node.SetHighSeqno(uint16(vb), 100+uint64(vb))
+	}
+	if err := node.Start(); err != nil {
+		panic(err)
+	}
+	var armed atomic.Bool
+	var mu sync.Mutex
+	seen := make([]int, n)
+	hasLate := false
+	for _, b := range m.behs {
+		hasLate = hasLate || b == "late"
+	}
+	node.OnRequest(func(r sim.Request) sim.Action {
+		if r.Opcode != memd.CmdGetAllVBSeqnos || !armed.Load() || r.Node < 0 || r.Node >= n {
+			return sim.Default()
+		}
+		mu.Lock()
+		seen[r.Node]++
+		mu.Unlock()
+		switch m.behs[r.Node] {
+		case "err":
+			return sim.Status(memd.StatusInternalError)
+		case "silent":
+			return sim.Silent()
+		case "late":
+			return sim.Delay(awMultiD + awMultiLate)
+		}
+		return sim.Default()
+	})
+	cfg := node.Config("awmulti-"+id, "couchbase")
+	cl := couchbase.NewClient(cfg)
+	if err := cl.Connect(); err != nil {
+		panic(err)
+	}
+	if err := cl.DcpConnect(true, false); err != nil {
+		panic(err)
+	}
+	armed.Store(true)
+	ch := make(chan string, 1)
+	t0 := time.Now()
+	go func() {
+		defer func() {
+			if r := recover(); r != nil {
+				ch <- awPanicClass(r)
+			}
+		}()
+		mm, err := cl.GetVBucketSeqNos(false)
+		if err != nil {
+			ch <- awClass(err)
+			return
+		}
+		got := mm.ToMap()
+		switch {
+		case len(got) == 0:
+			ch <- "ok-empty"
+			return
+		case len(got) != awMultiVbN:
+			ch <- "ok-wrong-data"
+			return
+		}
+		for vb := 0; vb < awMultiVbN; vb++ {
+			if got[uint16(vb)] != 100+uint64(vb) {
+				ch <- "ok-wrong-data"
+				return
+			}
+		}
+		ch <- "ok"
+	}()
+	time.Sleep(50 * time.Millisecond)
+	once.Do(started)
+	tags := []string{fmt.Sprintf("wm:n=%d", n), "wm:" + strings.Join(m.behs, ",")}
+	var class string
+	select {
+	case class = <-ch:
+	case <-time.After(time.Until(t0.Add(awMultiD + awMultiGiveUp))):
+		// left behind: the client and the cluster stay open (closing them could wake the call up)
+		return awResult{op: m.op(), obs: fmt.Sprintf("hang late blocked=%d", awMultiParked(id)), tags: append(tags, "r:hang")}
+	}
+	ret := time.Now()
+	el := ret.Sub(t0)
+	tc := "late"
+	switch {
+	case el < awMultiD:
+		tc = "before"
+	case el <= awMultiD+awMultiMargin:
+		tc = "by-deadline"
+	}
+	// settle: 2 s after the return (and 1 s after a late answer went out) nothing of the call may be left
+	until := ret.Add(awMultiSettle)
+	lateSent := t0.Add(awMultiD + awMultiLate + 100*time.Millisecond)
+	if hasLate && until.Before(lateSent.Add(time.Second)) {
+		until = lateSent.Add(time.Second)
+	}
+	blocked := 0
+	for {
+		blocked = awMultiParked(id)
+		now := time.Now()
+		if (blocked == 0 && !(hasLate && now.Before(lateSent.Add(300*time.Millisecond)))) || now.After(until) {
+			break
+		}
+		time.Sleep(50 * time.Millisecond)
+	}
+	mu.Lock()
+	for i, k := range seen {
+		if k == 0 {
+			class += fmt.Sprintf("(node%d-not-asked)", i)
+			tags = append(tags, "scripted-request-never-seen")
+		}
+	}
+	mu.Unlock()
+	cl.DcpClose()
+	cl.Close()
+	node.Close()
+	return awResult{op: m.op(), obs: fmt.Sprintf("%s %s blocked=%d", class, tc, blocked), tags: append(tags, "r:"+class)}
+}
+
 type awJob struct {
 	w   *awWrapper
 	beh string
@@ -664,6 +946,7 @@ func runC20W(c *Ctx) {
 	g0 := runtime.NumGoroutine()
 	var lanes [3][]awJob
 	var solo []awJob // own node each: drop, 60 s / 5 s silence
+	var multi []awMultiCase
 	if replayFile != "" {
 		b, err := os.ReadFile(replayFile)
 		if err != nil {
@@ -672,6 +955,15 @@ func runC20W(c *Ctx) {
 		for _, ln := range strings.Split(string(b), "\n") {
 			op := strings.TrimSpace(strings.SplitN(ln, "\t", 2)[0])
 			if op == "" || strings.HasPrefix(op, "ao-wire-") {
+				continue
+			}
+			if strings.HasPrefix(op, "w-seqnos-multi") {
+				if m, ok := awMultiParse(op); ok {
+					multi = append(multi, m)
+				} else {
+					c.E.Line(op, "bad-op")
+					c.E.EndCase(false, "replay-bad-op")
+				}
 				continue
 			}
 			w, beh, ok := awParseOp(ws, op)
@@ -708,7 +1000,22 @@ func runC20W(c *Ctx) {
 				lanes[l][i], lanes[l][j] = lanes[l][j], lanes[l][i]
 			}
 		}
+		multi = awMultiCases(c) // draws after the lane shuffles: the order of the existing cases is unchanged
 	}
+
+	// the multi-node GetVBucketSeqNos cases go first and stay in the background: their wall time is the
+	// wrapper's hard-coded 60 s.  Everything else starts when their calls are under way.
+	var mwg, mstarted sync.WaitGroup
+	mres := make([]awResult, len(multi))
+	for i, m := range multi {
+		mwg.Add(1)
+		mstarted.Add(1)
+		go func(i int, m awMultiCase) {
+			defer mwg.Done()
+			mres[i] = awMultiRun(m, i, mstarted.Done)
+		}(i, m)
+	}
+	mstarted.Wait()
 
 	// fact line first
 	probeEnv := newAwEnv(false, "awprobe")
@@ -781,10 +1088,12 @@ func runC20W(c *Ctx) {
 		}(i, j)
 	}
 	wg.Wait()
+	mwg.Wait()
+	results = append(results, mres...)
 	sort.SliceStable(results, func(i, j int) bool { return results[i].op < results[j].op })
 	for _, r := range results {
 		c.E.Line(r.op, r.obs)
-		c.E.EndCase(!strings.Contains(r.op, " prompt "), r.tags...)
+		c.E.EndCase(!strings.Contains(r.op, " prompt ") && !strings.HasSuffix(r.op, " prompt,prompt") && !strings.HasSuffix(r.op, " prompt,prompt,prompt"), r.tags...)
 	}
 	if replayFile != "" {
 		probeLine()
@@ -805,5 +1114,6 @@ func runC20W(c *Ctx) {
 	c.E.Line("ao-wire-goroutines", fmt.Sprintf("leaked=%d", leaked))
 	c.E.EndCase(true, "goroutine-balance")
 	c.Extra["wrappers"] = len(ws)
+	c.Extra["multi_node_cases"] = len(multi)
 	c.Extra["deadline_ms"] = awD.Milliseconds()
 }
